@@ -161,7 +161,16 @@ def run_assignment(case, mask):
         return out
 
     first_space = None
+    varied_now = None
+    recached = False
     for op in case["ops"]:
+        if varied_now is None and op["op"] == "evalall":
+            varied_now = set()
+            for v in varied:
+                try:
+                    varied_now.add((id(w.rm.get(v[0])), v[1]))
+                except KeyError:
+                    pass
         k = op["op"]
         if k == "nop":
             continue
@@ -218,8 +227,26 @@ def run_assignment(case, mask):
                     if not s_.cells[n].cached:
                         w.apply({"op": "set_cached", "space": s_.path(), "name": n, "cached": True})
             unc = set()
+            recached = True
             continue
         op2 = {a: b for a, b in op.items() if a != "tag"}
+        if op2["op"] in ("assign", "clear_at", "clear", "clear_all") and "inst" in op2 and not recached:
+            # value edits need a cells that is cached under every assignment: decided from the definitions (the
+            # same under every assignment), so the same edits are skipped in every run of the case
+            try:
+                sp_ = w.rm.get(".".join(s_[1] for s_ in op2["inst"]))
+                d_ = R.members(sp_)["cells"].get(op2["name"])
+                if d_ is None or (id(d_[0]), op2["name"]) in varied_now:
+                    continue
+            except Exception:      # noqa
+                continue
+        if op2["op"] == "rename_cells":
+            try:
+                sid = id(w.rm.get(op2["space"]))
+                if (sid, op2["name"]) in varied_now:
+                    varied_now.add((sid, op2["new"]))
+            except KeyError:
+                pass
         if op2["op"] == "new_cells" and (op2["space"], op2["name"]) in unc and not toggle:
             op2 = dict(op2, cached=False)
         r = w.apply(op2)
